@@ -106,15 +106,15 @@ SPACES = {
     ],
     "thorough": [
         _space(["A", "B", "C", "D"], [H0, HA, HB, ["A", "A"], HAB, ["D"]], 0),
-        _space(["AA", "AB", "AC", "AD", "BD"], [H0, HA, HB, HAB], 2),
+        _space(["AA", "AB", "AC"], [H0, HA, HB, HAB], 1),
+        _space(["AD", "BD"], [H0, HA, HB], 3),
         _space(["DD"], [H0], 4),
-        _space(["DD"], [HA], 4, bound=4),
         _space(["AAA", "AAB", "ABB", "ABC"], [H0], 3),
-        _space(["AAA", "ABC"], [HA, HB], 4, budget=3000),
-        _space(["AAB", "ABB"], [HA, HB], 4, bound=4),
-        _space(["AAD"], [H0], 4, bound=3),
+        _space(["AAA", "ABC"], [HA], 4, budget=3000),
+        _space(["AAB"], [HA], 4, bound=3),
+        _space(["AAD"], [H0], 3, bound=2),
         _space(["AA", "AB", "AC"], [H0, HA, HB, HAB], 2, full=True, budget=400),
-        _space(["AD", "BD"], [H0, HA], 4, full=True, budget=400),
+        _space(["AD"], [H0, HA], 4, full=True, budget=400),
     ],
 }
 SCHEMES = ["multiple", "single"]
@@ -569,7 +569,9 @@ def run_case(case):
             found, cls = judge(spec, rec, histfiles)
             res["classes"][cls] = res["classes"].get(cls, 0) + 1
             digests.add(_digest(spec, rec, found))
-            for sig, msg in found:
+            for pos, (sig, msg) in enumerate(found):
+                if sig in [s for s, _ in found[:pos]]:
+                    continue        # one entry per (schedule, signature)
                 res["viol"].append({
                     "key": spec_key(spec) + "|s" + "".join(map(str, sched)),
                     "sig": sig, "msg": msg,
